@@ -28,7 +28,10 @@ PROBES = ['compile_race_second_thread_blocked_on_cooklock',
           'three_threads', 'precooked_template', 'restricted_eval_variant',
           'strategy_one_preemption',
           'strategy_two_preemptions', 'strategy_pct', 'strategy_random_walk',
-          'strategy_write_biased', 'switch_right_after_attribute_write',
+          'strategy_write_biased', 'strategy_lock_barrier',
+          'strategy_handover', 'handover_thread_parked_after_the_write',
+          'all_threads_parked_in_front_of_the_compile_lock',
+          'switch_right_after_attribute_write',
           'one_thread_failed_others_fine', 'parse_error_template',
           'sort_expr_per_thread', 'shared_sub_template', 'tree_tag',
           'callback_yield_switch', 'second_call_of_a_thread',
@@ -48,7 +51,13 @@ RULE = ('templates: generator-A programs over every block tag (per-thread '
         'point chosen uniformly over the DISTINCT lines of the first '
         'thread\'s solo profile (without replacement), two pre-emptions, '
         'PCT with 1-3 change points, random walks with switch probability '
-        '0.5 .. 0.005, write-biased.  An evaluation is one schedule '
+        '0.5 .. 0.005, write-biased, and "race to the lock" (every thread is '
+        'parked in front of its first package lock before anybody takes it, '
+        'then a random walk or write-biased), and "hand-over": one thread '
+        'is parked right after a chosen write line (each distinct storing '
+        'line of its solo profile in turn), optionally after a race to the '
+        'lock in which another thread went first and released it.  An '
+        'evaluation is one schedule '
         'executed; after every schedule each call is made once more on '
         'the same template, one at a time, and must still give the solo '
         'result.  Non-trivial: a schedule in which at least one '
@@ -69,6 +78,7 @@ ASSUMPTIONS = [
 ]
 
 FOREVER = S.INF
+WRITES = []        # per thread: source lines of the solo run that store
 STEP_BUDGET = 25 * 10 ** 6     # per case (deterministic, unlike wall time)
 
 
@@ -91,7 +101,8 @@ def gen_case(seed, tier):
             else r.choice([30, 60, 100]),
             'sched_seed': r.randint(0, 10 ** 9), 'segments': None,
             'calls': r.choice([1, 1, 2]),
-            'exhaust_one': tier == 'thorough' and r.random() < 0.5}
+            'exhaust_one': tier == 'thorough' and r.random() < 0.3,
+            'exhaust_handover': tier == 'thorough' and r.random() < 0.5}
     if family == 'tree':
         gen_tree_family(r, case)
     elif family == 'gen':
@@ -417,7 +428,37 @@ def schedule_for(case, j, profiles, used_lines):
     k = case['nthreads']
     x = r.random()
     total = sum(len(p) for p in profiles)
-    if x < 0.42:
+    if x < 0.30 and WRITES and any(WRITES):
+        # park a thread right after one of its writes (each distinct write
+        # line of the solo profile at most once per case), with or without
+        # a race to the lock and a hand-over first
+        y = r.randrange(k)
+        if not WRITES[y]:
+            y = max(range(k), key=lambda t_: len(WRITES[t_]))
+        lines = WRITES[y]
+        race = (not case['precooked']) and r.random() < 0.6
+        fresh = [ln for ln in lines if (y, race, ln) not in used_lines] \
+            or lines
+        ln = r.choice(fresh)
+        used_lines.add((y, race, ln))
+        xs = [t_ for t_ in range(k) if t_ != y]
+        return 'handover', S.HandoverPolicy(r.choice(xs), y, ln, race), False
+    if x < 0.40 and not case['precooked']:
+        # race to the compile lock, then a random walk or write-biased
+        if r.random() < 0.5:
+            inner = S.WritePolicy(r, 0.5, r.choice([50, 400, 5000]))
+            return 'lock_barrier', S.BarrierPolicy(inner), True
+        p = r.choice([0.1, 0.02, 0.005])
+        segs = []
+        budget = total * 2 + 50
+        while budget > 0:
+            n = 1
+            while r.random() > p and n < 5000:
+                n += 1
+            segs.append([r.randrange(k), n])
+            budget -= n
+        return 'lock_barrier', S.BarrierPolicy(S.SegmentPolicy(segs)), False
+    if x < 0.58:
         a = r.randrange(k)
         prof = profiles[a]
         lines = sorted(set(prof))
@@ -430,7 +471,7 @@ def schedule_for(case, j, profiles, used_lines):
         r.shuffle(others)
         segs = [[a, n]] + [[t, FOREVER] for t in others] + [[a, FOREVER]]
         return 'one_preemption', S.SegmentPolicy(segs), False
-    if x < 0.60:
+    if x < 0.70:
         a, b = r.sample(range(k), 2)
         n1 = r.randrange(max(1, len(profiles[a])))
         n2 = r.randrange(max(1, len(profiles[b])))
@@ -438,13 +479,13 @@ def schedule_for(case, j, profiles, used_lines):
         r.shuffle(rest)
         segs = [[a, n1], [b, n2]] + [[t, FOREVER] for t in rest]
         return 'two_preemptions', S.SegmentPolicy(segs), False
-    if x < 0.74:
+    if x < 0.80:
         prios = list(range(k))
         r.shuffle(prios)
         d = r.choice([1, 2, 3])
         cps = [r.randrange(max(1, total)) for _ in range(d)]
         return 'pct', S.PCTPolicy(prios, cps), False
-    if x < 0.90:
+    if x < 0.92:
         p = r.choice([0.5, 0.1, 0.02, 0.005])
         segs = []
         budget = total * 2 + 50
@@ -489,11 +530,15 @@ def solo(case):
     """outcome and pre-emption profile of every thread running alone on a
     fresh template"""
     outs, profs = [], []
+    WRITES[:] = []
     for i in range(case['nthreads']):
         def alone(i=i):
             t = make_template(case)
+            w = set()
             out, points = S.solo_profile(thread_fn(case, i, t),
-                                         opcode=case['opcode'])
+                                         opcode=case['opcode'], writes=w)
+            points = S.Profile(points)
+            points.writes = sorted(w)
             if out[0] != 'ok':
                 return ('exc', repr(out[1])), points
             return out, points
@@ -505,7 +550,8 @@ def solo(case):
         if out[0] != 'ok':
             raise RuntimeError('solo run failed: %s' % (out[1],))
         outs.append(out[1])
-        profs.append(points)
+        profs.append(list(points))
+        WRITES.append(list(getattr(points, 'writes', ())))
     return outs, profs
 
 
@@ -624,6 +670,11 @@ def _run_case(case):
         if track and getattr(policy, 'nswitch', 0):
             probe('switch_right_after_attribute_write')
         probe('strategy_' + name)
+        if name == 'handover' and policy.hit:
+            probe('handover_thread_parked_after_the_write')
+        if name == 'lock_barrier' and getattr(policy, 'released', False) \
+                and len(getattr(policy, 'waiting', ())) == case['nthreads']:
+            probe('all_threads_parked_in_front_of_the_compile_lock')
         if inside:
             nontrivial.add(core.chash([chash, sim.switches]))
         if not vs and any(e[0][0] == 'raise' for e in expected) and any(
@@ -663,6 +714,26 @@ def _run_case(case):
             probe('single_preemption_stratum_exhausted'
                   if steps <= STEP_BUDGET else
                   'single_preemption_stratum_cut_by_step_budget')
+        if case.get('exhaust_handover') and not violations:
+            # every storing line of every thread's solo profile once, with
+            # and (for a template that is not compiled yet) without a race
+            # to the lock first
+            r = core.stream(case['sched_seed'], 'exhaust_handover')
+            k = case['nthreads']
+            done = True
+            for y in range(k):
+                for ln in (WRITES[y] if y < len(WRITES) else ()):
+                    for race in ((True, False) if not case['precooked']
+                                 else (False,)):
+                        if violations or steps > STEP_BUDGET:
+                            done = False
+                            break
+                        x_ = r.choice([t_ for t_ in range(k) if t_ != y])
+                        used_lines.add((y, race, ln))
+                        violations += one('handover', S.HandoverPolicy(
+                            x_, y, ln, race), False)
+            probe('handover_stratum_exhausted' if done else
+                  'handover_stratum_cut_by_step_budget')
         for j in range(case['nsched']):
             if violations or steps > 2 * STEP_BUDGET:
                 break
